@@ -781,7 +781,13 @@ func Run(c *hx.Ctx) {
 		"DOCX/ODT/PPTX (office.go): element lists of 1-9 body elements (paragraphs with a unique token, paragraphs repeating a line of a header/footer part exactly / padded / in another case / extended, blank paragraphs, tables whose cells repeat such lines), " +
 		"0-2 header and footer parts of 1-3 lines, the two flags independently; run through the ODT and DOCX readers built on the elements (TextWithOptions, MarkdownWithOptions), every fourth also as a written DOCX file through docx.Open and tabula.Open(f).Exclude…().Text(); " +
 		"0-4 slides of 0-5 text blocks in 12 placeholder types through the PPTX reader. " +
-		"Non-trivial = at least one fragment was removed (histories: a judged request with exclusion ran; office: a flag was set)."
+		"Written PPTX decks (deck.go): 1-5 slides serialised by an independent PresentationML writer (package, presentation with slide list, slide parts under shuffled part names, one layout part per slide, master, notes slides) " +
+		"in the flavours a producer writes - stock layouts (content idx 1..4, typed dt/ftr/sldNum with idx 10..12), custom layouts (content placeholders WITHOUT type numbered from idx 10/11/12/13 upwards, typed footers behind them), " +
+		"no footer placeholders at all, and free mixes in which type (17 values or omitted), idx (omitted, 0..21, 100, 4294967295), sz, orient, hasCustomPrompt, shape name (footer names on content, content names on footers) and position (top, middle, bottom, none) " +
+		"are drawn independently, text boxes alone and in groups; body shapes carry unique lines, lines repeating on every slide, the footer's own line, bare numbers, dates and page-number texts in 4 styles; paragraphs in 1-3 runs or as one field; " +
+		"read by pptx.Open(f).TextWithOptions / MarkdownWithOptions (titles and notes on or off, all slides or a subset) and tabula.Open(f).ExcludeHeaders()/ExcludeFooters()/ExcludeHeadersAndFooters().Text() / ToMarkdown(), each with and without the flags; " +
+		"a shape is marginal iff its written <p:ph> has type ftr, dt, sldNum or hdr; c11.ptext is emitted on the slides as written. " +
+		"Non-trivial = at least one fragment was removed (histories: a judged request with exclusion ran; office: a flag was set; decks: the flags changed the answer)."
 	for wi, d := range []Doc{witnessB20(), witnessEmbeddedNumber(), witnessCharLevel(), witnessCover(), witnessMixedSizes()} {
 		directCase(c, d, true)
 		script, kind := genScript(c.Rng.Fork(uint64(3_000_000+wi)), len(d.Pages))
@@ -850,6 +856,7 @@ func Run(c *hx.Ctx) {
 	extractorCases(c)
 	rootOps(c)
 	officeCases(c)
+	deckCases(c)
 	os.RemoveAll(filepath.Join(c.OutDir, "pdf"))
 }
 
@@ -911,6 +918,10 @@ func Replay(c *hx.Ctx, kase map[string]interface{}) {
 		}
 		json.Unmarshal(b, &k)
 		pptxCase(c, k.Slides, k.ExH, k.ExF)
+	case "deck":
+		var k struct{ Deck deckCase }
+		json.Unmarshal(b, &k)
+		deckRun(c, k.Deck)
 	case "docx":
 		var k struct {
 			P        string
